@@ -150,6 +150,27 @@ class HAny(Hooks, AnyNode):
     pass
 
 
+class HLines(Hooks, NodeMixin):
+    """User class whose repr is a given (possibly empty or multi-line) text."""
+
+    lines = ()
+
+    def __repr__(self):
+        return "\n".join(self.lines)
+
+
+class UserAttrs(NodeMixin):
+    """User class that stores its keyword arguments as instance attributes (DictImporter nodecls)."""
+
+    def __init__(self, parent=None, children=None, **kwargs):
+        super().__init__()
+        for key, value in kwargs.items():
+            setattr(self, key, value)
+        self.parent = parent
+        if children:
+            self.children = children
+
+
 class HNodeSemi(Hooks, Node):
     """Node with another class-level separator."""
 
